@@ -18,6 +18,8 @@ Judge ==
         c == r.content
     IN /\ (r.model_match \/ Say("DIVERGENCE", r.api))
        /\ (r.out_ok \/ Say("VERDICT", "PassThroughAltered"))
+       \* a digest asked for part-way is the digest of what was fed so far (C14_SoFar) and does not stop the hashing
+       /\ (r.peek_ok \/ Say("VERDICT", "DigestMidStreamWrong"))
        /\ (r.stream = "plain" =>
              /\ (r.raw_match \/ Say("VERDICT", "DigestDependsOnChunkingOrWrong"))
              /\ (r.count_ok \/ Say("VERDICT", "CountWrong")))
